@@ -12,7 +12,7 @@ THEOREMS = ['GV.Obj.' + t for t in (
     'dt_eq_iff', 'dt_eq_imp_hashKey',
     'Shape.eq_refl', 'Shape.eq_symm', 'Shape.eq_trans', 'Hole.eq_as_shape', 'Shape.eq_imp_hashKey',
     'closed_mkOutlineC', 'poly_eq_rewrite', 'poly_eq_rotate', 'poly_eq_reverse', 'poly_rewrite_hashKey',
-    'hole_edges_rotate', 'hole_rotation_eq', 'poly_holes_perm',
+    'hole_edges_rotate', 'hole_rotation_eq', 'poly_eq_of_hole_edges', 'hole_rewrite_eq', 'poly_holes_perm',
     'Multi.eq_refl', 'Multi.eq_symm', 'Multi.eq_trans', 'multi_eq_perm', 'multi_eq_of_members_eq',
     'Multi.eq_imp_hashKey',
     'Any.eq_refl', 'Any.eq_symm', 'Any.eq_trans', 'Any.single_ne_multi', 'Any.eq_imp_hashKey',
@@ -158,13 +158,15 @@ def iso_spec_ok(answer, want):
     return f.get('eq') == 'T' and f['share'][0] == 'F' and f['share'][1] in 'F_' and other == want
 
 
-def impl_for(_line):
-    return impl
+def impl_for(line):
+    return impl_usable if line.startswith('ob.usable') else impl
 
 
 def spec_for(line):
     if line.startswith('ob.iso'):
         return None     # the demand is a predicate on the answer (iso_spec_ok), not a string
+    if line.startswith('ob.usable'):
+        return lambda _ln: 'T'
     return spec
 
 
@@ -216,6 +218,11 @@ H2 = ('P', 0, None, [C(4, 4), C(6, 4), C(6, 6), C(5, 7), C(4, 6)], [])
 H3 = ('P', 0, None, [C(3, 1), C(3.5, 1), C(3.5, 2.5)], [])
 HB = ('B', None, C(1, 2), C(2, 1), [])                       # the same ring as H1, as a box
 HC = ('C', None, C(5, 2), 30000.0, [])
+# a box hole whose NW corner has Z = 0.0 (kept on the derived corners, fix 68e2a82) and the same ring as a polygon
+HBZ = ('B', None, C(1, 2, 0.0), C(2, 1), [])
+HPZ = ('P', 0, None, [C(1, 2, 0.0), C(1, 1, 0.0), C(2, 1), C(2, 2, 0.0)], [])
+HBZ5 = ('B', None, C(1, 2), C(2, 1, 5.0), [])
+HPZ5 = ('P', 0, None, [C(1, 2), C(1, 1, 5.0), C(2, 1, 5.0), C(2, 2, 5.0)], [])
 BIG = [C(0, 0), C(8, 0), C(8, 8), C(0, 8)]
 
 
@@ -375,7 +382,7 @@ def gen_holes(run):
     # other kinds of holes, holes with a time of their own, duplicated holes
     hdt = og.with_dt(H1, DTS[1])
     cases = [[HB, H2], [H2, HB], [H1, HC], [HC, H1], [HC], [hdt, H2], [H1, H1], [H1, H2, H2], [H1, H1, H2], [H2],
-             [H1, H3], [H3, H1], [H1, H2, H3], [H3, H2, H1], []]
+             [H1, H3], [H3, H1], [H1, H2, H3], [H3, H2, H1], [], [HBZ, H2], [HPZ, H2], [HBZ5, H2], [HPZ5, H2]]
     shapes = [('P', 0, DTS[2], outer, hs) for hs in cases]
     for a in shapes + [base]:
         for b in shapes + [base]:
